@@ -87,15 +87,62 @@ class RProg:
     methods: List[RMethod]
     name: str = "Ctr"
     idx: int = 0
+    decor: Optional[dict] = None        # L1 only: other features of a contract around the reply table (see gen_decor)
 
     def contract(self, bodies=False):
-        c = Contract(self.name)
+        d = self.decor if (self.decor and not bodies) else {}
+        c = Contract(self.name, generics=list(d.get("generics", [])))
+        for a in d.get("attrs_before", []):
+            c.attrs.append(a)
         c.attrs.append(sv_features(["replies"]))
+        for a in d.get("attrs_after", []):
+            c.attrs.append(a)
         c.items.append(Method("instantiate", [sv_msg("instantiate")], [], P("StdResult", P("Response")), ctx_ty="InstantiateCtx",
                               body="{ Ok(Response::new()) }"))
+        extra = list(d.get("methods", []))
         for m in self.methods:
+            while extra and d.get("interleave") and len(extra) > 0 and (hash((m.name, len(extra))) % 3 == 0):
+                c.items.append(extra.pop(0))
             c.items.append(m.to_method(echo_body(m) if bodies else None))
+        c.items.extend(extra)
         return c
+
+
+def gen_decor(rng):
+    """Features that should not change anything about reply handling, in combination with it: a generic contract,
+    interfaces, chain-custom types, a custom error type, overridden entry points, handlers of the other kinds between the
+    reply methods."""
+    from .prog import sv_messages, sv_custom, sv_error, sv_override, Arg
+    if rng.random() < 0.5:
+        return None
+    d = {"generics": [], "attrs_before": [], "attrs_after": [], "methods": [], "interleave": rng.random() < 0.5}
+    if rng.random() < 0.4:
+        d["generics"] = rng.choice([["T"], ["T", "U"]])
+    pool = []
+    if rng.random() < 0.5:
+        pool.append(sv_messages(["ifaces", "iface_a"], as_name=rng.choice([None, "Alias1"])))   # (a redundant alias is a warning, which the in-process probe cannot tell from an error)
+    if rng.random() < 0.3:
+        pool.append(sv_messages(["owner_api"], custom_msg=rng.random() < 0.5, custom_query=rng.random() < 0.5))
+    if rng.random() < 0.4:
+        pool.append(sv_custom(msg=rng.choice([None, "MyMsg"]), query=rng.choice([None, "MyQuery"])))
+    if rng.random() < 0.4:
+        pool.append(sv_error("ContractError"))
+    for k in ("sudo", "exec", "migrate"):
+        if rng.random() < 0.2:
+            pool.append(sv_override(k, "crate::custom_%s" % k, "Custom%sMsg" % k.capitalize()))
+    for a in pool:
+        (d["attrs_before"] if rng.random() < 0.5 else d["attrs_after"]).append(a)
+    ret = P("StdResult", P("Response"))
+    gens = d["generics"]
+    if rng.random() < 0.6:
+        d["methods"].append(Method("bump", [sv_msg("exec")], [Arg("by", P(gens[0]) if gens else P("u32"))], ret, ctx_ty="ExecCtx"))
+    if rng.random() < 0.5:
+        d["methods"].append(Method("value", [sv_msg("query")], [], P("StdResult", P(gens[-1]) if gens else P("u32")), ctx_ty="QueryCtx"))
+    if rng.random() < 0.3:
+        d["methods"].append(Method("upgrade", [sv_msg("migrate")], [], ret, ctx_ty="MigrateCtx"))
+    if rng.random() < 0.3:
+        d["methods"].append(Method("tick", [sv_msg("sudo")], [], ret, ctx_ty="SudoCtx"))
+    return d
 
 
 def echo_body(m):
